@@ -392,6 +392,14 @@ def _distinct(x, y):
             return True
         if isnum(r):
             return True
+    # separation: the element block of a std::vector is its own allocation, disjoint from the fields of `this`
+    rx, ry = _alloc_root(x), _alloc_root(y)
+    def _is_vdata(r_):
+        return r_.op == "select" and r_.args[0].op in ("sym", "store") and "#vdata" in repr(_base_sym(r_.args[0]))
+    def _is_this(r_):
+        return r_.op == "sym" and r_.args[0] == "this"
+    if (_is_vdata(rx) and _is_this(ry)) or (_is_vdata(ry) and _is_this(rx)):
+        return True
     # p + c1 vs p + c2
     if x.op == "+" and y.op == "+" and x.args[0] is y.args[0]:
         return _distinct(x.args[1], y.args[1])
@@ -403,6 +411,12 @@ def _distinct(x, y):
 
 
 ALLOC_PREFIX = ("new!", "ret_PHRQ_malloc!", "ret_PHRQ_calloc!", "ret_PHRQ_realloc!", "ret_malloc!", "&")
+
+
+def _base_sym(a):
+    while a.op == "store":
+        a = a.args[0]
+    return a
 
 
 def _alloc_root(x):
